@@ -232,7 +232,14 @@ class Earley:
         x = tuple(x)
         c = self._chart.get(x)
         if c is None:
-            self._chart[x] = c = self._compute_chart(x)
+            # Fill the cache upwards from the longest cached prefix, so that
+            # `_compute_chart` never recurses more than one level (a cold, long
+            # context must not hit the interpreter's recursion limit).
+            k = len(x)
+            while k > 0 and x[: k - 1] not in self._chart:
+                k -= 1
+            for j in range(k, len(x) + 1):
+                self._chart[x[:j]] = c = self._compute_chart(x[:j])
         return c
 
     def _compute_chart(self, x):
